@@ -66,11 +66,16 @@ func ruleStringBuffers(c *Ctx) {
 		if vcond == "" {
 			if ra == "true" {
 				report("validate", "parseString reports success on a path that never validated the string", "any string with a bad escape")
+			} else {
+				report("reject", "parseString rejects a string on a path that never ran the validator: a valid string is refused (result "+ra+")", "any document with a string on that path")
 			}
 			continue
 		}
 		if ra == "true" && !vpos {
 			report("validate", "parseString reports success although the validator failed", `["\x"]`)
+		}
+		if ra != "true" && vpos {
+			report("reject", "parseString rejects a string although the validator accepted it (result "+ra+")", "any valid string on that path")
 		}
 		if ra != "true" {
 			continue
